@@ -57,12 +57,81 @@ def sample_lean(k, inp, impl):
             f"example : outcomeCanon (simulate ({proc} : Proc Nat) {prg}) = ({kind}, {table}) := by decide\n")
 
 
+CLASS_CODE = {"DupElemError": 1, "BadWidthError": 2, "BadEdgeError": 3, "UndefElemError": 4, "NetworkXUnfeasible": 5,
+              "DeadInputError": 6, "EmptyProcError": 7, "PathLockError": 8, "BlockedCapError": 9}
+
+
+def loader_sample_lean(k, desc, res):
+    """`desc` spells every name in one way only (checked by the caller), so case folding is the identity on it"""
+    names = set()
+    for u in desc["units"]:
+        names |= {u["name"], *u["capabilities"], *u.get("memoryAccess", [])}
+    for e in desc["dataPath"]:
+        names |= set(e)
+    nm = {s: n for n, s in enumerate(sorted(names))}
+    b = lambda v: "true" if v else "false"   # noqa: E731
+    units = lean_list(
+        f"⟨{nm[u['name']]}, {u['width']}, {lean_list(str(nm[c]) for c in u['capabilities'])}, {b(u.get('readLock', False))}, "
+        f"{b(u.get('writeLock', False))}, {lean_list(str(nm[c]) for c in u.get('memoryAccess', []))}⟩" for u in desc["units"])
+    edges = lean_list(lean_list(str(nm[x]) for x in e) for e in desc["dataPath"])
+    if res["ok"]:
+        rows = []
+        p = res["proc"]
+        for cls, key in ((0, "inPorts"), (1, "inOut"), (2, "outPorts"), (3, "internal")):
+            for u in p[key]:
+                caps = [nm[c] for c in u["caps"]]
+                acl = [nm[c] for c in u["acl"]]
+                preds = sorted(nm[q] for q in u.get("preds", []))
+                row = [cls, nm[u["name"]], u["width"], int(u["rd"]), int(u["wr"]), len(caps), *caps, len(acl), *acl, len(preds), *preds]
+                rows.append((nm[u["name"]], lean_list(str(x) for x in row)))
+        want = f"(0, {lean_list(r for _, r in sorted(rows))})"
+    else:
+        want = f"({CLASS_CODE[res['error']['class']]}, [])"
+    return (f"/-- loader sample {k}: {json.dumps(nm)} -/\n"
+            f"example : loadCanonNat (⟨{units}, {edges}⟩ : Loader.Desc Nat) = {want} := by decide\n")
+
+
+def loader_samples(n: int):
+    from harness import comp_loader
+
+    out, meta = [], []
+    case = 0
+    while len(meta) < n and case < 20000:
+        rng = core.case_rng("kernel-loader", case)
+        case += 1
+        fam = comp_loader.FAMILIES[case % len(comp_loader.FAMILIES)]
+        if fam == "mkproc":
+            continue
+        desc, _ = comp_loader.gen_desc(rng, fam)
+        if len(desc["units"]) > 6:
+            continue
+        strings = [u["name"] for u in desc["units"]] + [c for u in desc["units"] for c in u["capabilities"] + u.get("memoryAccess", [])] \
+            + [x for e in desc["dataPath"] for x in e]
+        spell = {}
+        for s_ in strings:
+            spell.setdefault(s_.lower(), set()).add(s_)
+        if any(len(v) > 1 for v in spell.values()):
+            continue            # keep case folding out of the kernel samples (fold := id)
+        declared = {c for u in desc["units"] for c in u["capabilities"]}
+        if any(c not in declared for u in desc["units"] for c in u.get("memoryAccess", [])):
+            continue
+        if any(not isinstance(u["width"], int) for u in desc["units"]):
+            continue
+        res = comp_loader.run_load(desc)
+        if not res["ok"] and res["error"]["class"] not in CLASS_CODE:
+            continue
+        out.append(loader_sample_lean(len(meta), desc, res))
+        meta.append({"case": case - 1, "family": fam, "units": len(desc["units"]),
+                     "outcome": "accepted" if res["ok"] else res["error"]["class"]})
+    return out, meta
+
+
 def main(n: int = 16) -> int:
     core.install_repo()
     core.ensure_built(["ProcSim.Model.Canon"])
     out, meta = ["import ProcSim.Model.Canon", "open ProcSim", "set_option maxRecDepth 100000", ""], []
     case = 0
-    while len(meta) < n and case < 40000:
+    while len(meta) < n and case < 40000 and os.environ.get("VERIF_KERNEL_COMPONENT", "sim") == "sim":
         family, inp = comp_sim.gen_input(case, "quick")
         case += 1
         nunits = sum(len(inp["proc"][k]) for k in ("in", "out", "inout", "internal"))
@@ -78,6 +147,9 @@ def main(n: int = 16) -> int:
         out.append(sample_lean(len(meta), inp, impl))
         meta.append({"case": case - 1, "family": family, "units": nunits, "instructions": len(inp["prog"]),
                      "outcome": impl["outcome"], "cycles": len(impl["table"])})
+    if os.environ.get("VERIF_KERNEL_COMPONENT", "sim") == "loader":
+        lout, meta = loader_samples(n)
+        out = out[:4] + lout
     path = os.path.join(core.CACHE, f"KernelSamples_{os.getpid()}.lean")
     os.makedirs(core.CACHE, exist_ok=True)
     with open(path, "w") as fh:
